@@ -312,8 +312,10 @@ def _props_why(parent, n, md, side):
 def oracle2(t):
     """(outcome, first violated clause) as the property prescribes; outcome is
     'ok' | 'ValueError' | 'FileNotFoundError'."""
-    if t["store"] == "path" and not t["exists"]:
+    if t["store"] in ("path", "pathobj", "nested") and not t["exists"]:
         return "FileNotFoundError", "path-does-not-exist"
+    if t["store"] == "local" and not t["exists"]:
+        return "ValueError", "store-object-without-group"   # a store object, not a path: nothing to open
     root = t["root"]
     if not is_group(root):
         return "ValueError", "no-group-at-root"
@@ -398,32 +400,63 @@ def _fill(grp, node, fmt, strenc, data):
 
 
 def build(t, tmpdir=None, data=False):
-    """Materialise the abstract target; returns what is handed to geff (a store or a path str)."""
+    """Materialise the abstract target; returns what is handed to geff.
+    store kinds: memory (MemoryStore), path (str), pathobj (pathlib.Path), local (LocalStore),
+    nested (str path of a group inside a larger zarr hierarchy), storepath (StorePath into a
+    MemoryStore that holds the geff below `inner/`)."""
     import zarr
-    from zarr.storage import MemoryStore
+    from zarr.storage import LocalStore, MemoryStore, StorePath
 
-    fmt, strenc = t["fmt"], t.get("strenc", "vlen")
-    if t["store"] == "path":
+    fmt, strenc, kind = t["fmt"], t.get("strenc", "vlen"), t["store"]
+    on_disk = kind in ("path", "pathobj", "local", "nested")
+    p = None
+    if on_disk:
         p = Path(tmpdir) / "g.zarr"
-        if not t["exists"]:
+        if kind == "nested":
+            p = Path(tmpdir) / "outer.zarr" / "tracks.geff"
+
+    def handle(mem=None):
+        if kind == "path" or kind == "nested":
             return str(p)
-        store = p
-    else:
-        store = MemoryStore()
+        if kind == "pathobj":
+            return p
+        if kind == "local":
+            return LocalStore(p)
+        if kind == "storepath":
+            return StorePath(mem, "inner")
+        return mem
+
+    if on_disk and not t["exists"]:
+        return handle()
+    mem = None if on_disk else MemoryStore()
     root = t["root"]
+    if kind == "nested":
+        outer = zarr.open_group(p.parent, mode="w", zarr_format=fmt)
+        outer.attrs["outer"] = True
+        outer.create_array("raw", shape=(2, 2), dtype="uint8")
+    if kind == "storepath":
+        zarr.open_group(mem, mode="w", zarr_format=fmt).create_array("raw", shape=(2,), dtype="uint8")
     if root is None:
-        if t["store"] == "path":
+        if on_disk:
             p.mkdir()
-        return str(p) if t["store"] == "path" else store
+        return handle(mem)
+    dest = p if on_disk else (StorePath(mem, "inner") if kind == "storepath" else mem)
     if "a" in root:
         dt, sh = root["a"]
-        zarr.create_array(store, shape=tuple(sh), dtype=np_dtype(dt, strenc), zarr_format=fmt)
+        zarr.create_array(dest, shape=tuple(sh), dtype=np_dtype(dt, strenc), zarr_format=fmt)
     else:
-        g = zarr.open_group(store, mode="w", zarr_format=fmt)
+        g = zarr.open_group(dest, mode="w", zarr_format=fmt)
         if t["attrs"]:
             g.attrs.update(t["attrs"])
         _fill(g, root, fmt, strenc, data)
-    return str(p) if t["store"] == "path" else store
+        if t.get("be_node_ids") and fmt == 2:
+            # the same node ids stored big-endian (zarr format 2 keeps the byte order in the dtype)
+            nid = get_path(root, ["nodes", "ids"])
+            if is_array(nid) and nid["a"][0] in INTS and nid["a"][0] not in ("int8", "uint8"):
+                del g["nodes/ids"]
+                g["nodes"].create_array("ids", shape=tuple(nid["a"][1]), dtype=np.dtype(nid["a"][0]).newbyteorder(">"),
+                                        chunks=tuple(max(1, x) for x in nid["a"][1]) or "auto")
+    return handle(mem)
 
 
 # ============================================================ implementation observation
@@ -457,7 +490,7 @@ def _observe(t, target, out):
     out["vs"] = run_quiet(geff.validate_structure, target)
     if t.get("reader", True) or out["vs"] == "ok":
         out["reader"] = run_quiet(lambda s: GeffReader(s, validate=True), target)
-    if t["store"] == "path":
+    if t["store"] in ("path", "nested"):
         from typer.testing import CliRunner
 
         from geff._cli import app
@@ -479,7 +512,7 @@ def _observe(t, target, out):
 def impl_obs(t):
     out = {}
     try:
-        if t["store"] == "path":
+        if t["store"] in ("path", "pathobj", "local", "nested"):
             with tempfile.TemporaryDirectory(prefix="c04_") as td:
                 try:
                     target = build(t, td)
@@ -743,10 +776,11 @@ def root_faults():
     return out
 
 
-def catalogue():
-    """[(label, target)] — bases x single faults, in every format / string encoding"""
+def catalogue(quick=False):
+    """[(label, target)] — bases x single faults, in every format / string encoding (the quick
+    tier leaves out fixed-width unicode in zarr format 3)"""
     cases = []
-    variants = [(2, "vlen"), (3, "vlen"), (2, "fixed"), (3, "fixed")]
+    variants = [(2, "vlen"), (3, "vlen"), (2, "fixed")] + ([] if quick else [(3, "fixed")])
     k = 0
     for bname, (root, attrs) in bases().items():
         has_str = "\"str\"" in json.dumps(root)
@@ -798,6 +832,46 @@ def fault_pairs(rng, count):
     return out
 
 
+def store_variants():
+    """the bases and a spread of faults through every kind of StoreLike argument, a geff nested in
+    a larger hierarchy, big-endian node ids, unusual property names"""
+    out = []
+    bs = bases()
+    picks = ["base", "delete:nodes", "delete:edges/ids", "shape-0d:nodes/ids", "dtype-float64:nodes/ids",
+             "meta|no-geff-key", "meta|set:directed#0", "group->array:nodes/props", "dtype-uint8:edges/ids"]
+    k = 0
+    for bname in ("minimal", "typical", "no-axes"):
+        root, attrs = bs[bname]
+        pool = dict([("base", (root, attrs))] + [(lab, (r, attrs)) for lab, r in tree_faults(root)]
+                    + [("meta|" + lab, (root, a)) for lab, a in meta_faults(root, attrs)])
+        for lab in picks:
+            if lab not in pool:
+                continue
+            r, a = pool[lab]
+            for kind in ("pathobj", "local", "nested", "storepath", "path"):
+                for fmt in (2, 3):
+                    k += 1
+                    out.append((f"variant-{kind}|{bname}|{lab}", target(r, a, fmt, kind, subprocess=(kind == "nested" and k % 4 == 0))))
+    root, attrs = bs["minimal"]
+    for kind in ("pathobj", "local", "nested"):
+        for fmt in (2, 3):
+            out.append((f"variant-{kind}|missing-path", target(root, attrs, fmt, kind, exists=False)))
+            out.append((f"variant-{kind}|nothing-there", target(None, {}, fmt, kind)))
+    out.append(("variant-storepath|nothing-there", target(None, {}, 3, "storepath")))
+    # big-endian node ids against little-endian edge ids (same dtype class -> conformant)
+    for bname in ("typical", "empty-graph", "empty-groups"):
+        root, attrs = bs[bname]
+        out.append((f"variant-big-endian-node-ids|{bname}", target(root, attrs, 2, be_node_ids=True)))
+    # property names that are legal zarr member names but unusual
+    for nm in ("new prop", "π", "values", "missing", "ids", "props", "a.b", "x-1", "UPPER", "0"):
+        for fmt in (2, 3):
+            root, attrs = make_base(2, 1, [(nm, "float32", "masked")], [(nm, "int8", "plain")], [] if nm == "missing" else None)
+            out.append((f"variant-name|{nm}", target(root, attrs, fmt)))
+            root2, attrs2 = make_base(2, 1, [(nm, "float64", "plain")], [], [nm])
+            out.append((f"variant-axis-name|{nm}", target(root2, attrs2, fmt)))
+    return out
+
+
 def random_conformant(rng):
     """random conformant store (all conformant variants: dtypes, ranks, masks, var-length, axes)"""
     n, e = rng.choice((0, 1, 2, 5)), rng.choice((0, 1, 3))
@@ -814,8 +888,10 @@ def random_conformant(rng):
 
 # ============================================================ model request
 def model_req(t):
-    if t["store"] == "path" and not t["exists"]:
+    if t["store"] in ("path", "pathobj", "nested") and not t["exists"]:
         return {"target": None}
+    if t["store"] == "local" and not t["exists"]:
+        return {"target": {"root": None, "meta": {"k": "noKey"}}}
     return {"target": {"root": t["root"], "meta": meta_parse(t["attrs"])}}
 
 
@@ -880,10 +956,13 @@ def run(ck: common.Check):
                "fault pairs, random conformant stores; non-trivial = anything but an untouched base; distinct = "
                "distinct canonical JSON of the abstract target")
     cases = list(corpus())
-    cat = catalogue()
+    cat = catalogue(ck.quick)
     cases += cat
+    sv = store_variants()
+    cases += sv
+    ck.extra["store_variants"] = len(sv)
     ck.extra["single_fault_catalogue"] = len(cat)
-    npairs = 1200 if ck.quick else 40000
+    npairs = 800 if ck.quick else 40000
     cases += fault_pairs(ck.rng, npairs)
     nconf = 200 if ck.quick else 4000
     cases += [("random-conformant", random_conformant(ck.rng)) for _ in range(nconf)]
